@@ -1,3 +1,239 @@
+import Bch.Proofs.GcsSpec
+/-
+C13 — Golomb-coded set filters never miss a member and all query strategies agree.
+Model: `Bch/Model/Gcs.lean`; SipHash-2-4 is the parameter `sip`. Lemmas: `Bch/Proofs/Gcs*.lean`.
+-/
 namespace Bch.Props.C13
-theorem placeholder : True := trivial
+open Bch Bch.Model.Gcs
+open Bch.Proofs.Gcs (Sorted)
+
+/-! ## hash-to-range -/
+
+/-- The hand-written 64x64→high-64 multiplication is exact (all four partial products and the
+carry path). The bounds on `hi`/`lo` are those of the only call site (`hashToRange`). -/
+theorem fastReduction_spec (v hi lo : UInt64) (hhi : hi.toNat < 2^32) (hlo : lo.toNat < 2^32) :
+    (fastReduction v hi lo).toNat = (v.toNat * (hi.toNat * 2^32 + lo.toNat)) / 2^64 :=
+  Proofs.Gcs.fastReduction_spec v hi lo hhi hlo
+
+-- non-vacuity: the carry path (`lo32(vhi*nLo) + lo32(nHi*vlo) + hi32(vlo*nLo) ≥ 2^32`) is exercised
+example : (fastReduction 0xffffffffffffffff 0xffffffff 0xffffffff).toNat
+    = (0xffffffffffffffff * 0xffffffffffffffff) / 2^64 := by decide
+
+/-- `hashToRange` is `⌊sip(d) · modulusNP / 2^64⌋` for every modulus (no hypothesis). -/
+theorem hashToRange_floor (sip : Bytes → UInt64) (modNP : UInt64) (d : Bytes) :
+    (hashToRange sip modNP d).toNat = (sip d).toNat * modNP.toNat / 2^64 :=
+  Proofs.Gcs.hashToRange_spec sip modNP d
+
+/-- the hashed value lies in `[0, modulusNP)` -/
+theorem hashToRange_lt (sip : Bytes → UInt64) (modNP : UInt64) (d : Bytes) (h : modNP ≠ 0) :
+    (hashToRange sip modNP d).toNat < modNP.toNat :=
+  Proofs.Gcs.hashToRange_lt sip modNP d h
+
+example : (784931 : UInt64) ≠ 0 := by decide
+
+/-- guard branch of `hashToRange_lt`: with modulus 0 (N = 0, M = 0 or `N*M` a multiple of 2^64)
+every item hashes to 0 -/
+theorem hashToRange_zero (sip : Bytes → UInt64) (d : Bytes) : hashToRange sip 0 d = 0 :=
+  Proofs.Gcs.hashToRange_zero sip d
+
+/-! ## bit stream -/
+
+/-- packing to bytes and unpacking appends fewer than 8 zero bits, up to the byte boundary -/
+theorem unpack_pack (bs : List Bool) :
+    ∃ k, k < 8 ∧ (bs.length + k) % 8 = 0 ∧
+      unpackBits (packBits bs) = bs ++ List.replicate k false :=
+  Proofs.Gcs.unpack_pack bs
+
+/-- `ReadBits(p)` returns the `p` low bits written by `WriteBits(x, p)` -/
+theorem readBits_bitsOf (p x : Nat) (rest : List Bool) :
+    readBits p (bitsOf p x ++ rest) 0 = some (UInt64.ofNat (x % 2^p), rest) := by
+  have := Proofs.Gcs.readBits_bitsOf p x 0 rest
+  simpa using this
+
+/-- EOF branch of `readBits` -/
+theorem readBits_eof (p : Nat) (bs : List Bool) (acc : UInt64) (h : bs.length < p) :
+    readBits p bs acc = none := by
+  induction p generalizing bs acc with
+  | zero => omega
+  | succ p ih =>
+    cases bs with
+    | nil => rfl
+    | cons b bs => rw [readBits]; exact ih _ _ (by simpa using h)
+
+/-- the unary reader returns the number of one-bits and consumes the terminating zero -/
+theorem readUnary_ones (q : Nat) (rest : List Bool) :
+    readUnary (List.replicate q true ++ false :: rest) 0 = some (UInt64.ofNat q, rest) := by
+  have := Proofs.Gcs.readUnary_replicate q 0 rest
+  simpa using this
+
+/-- EOF branch of `readUnary`: a run of ones without terminator -/
+theorem readUnary_eof (q : Nat) (acc : UInt64) : readUnary (List.replicate q true) acc = none := by
+  induction q generalizing acc with
+  | zero => rfl
+  | succ q ih => rw [List.replicate_succ, readUnary]; exact ih _
+
+/-- **golomb_roundtrip**: every 64-bit delta, for every `P ≤ 32`, is read back exactly and the
+cursor is left directly after it. -/
+theorem golomb_roundtrip (p : Nat) (hp : p ≤ 32) (δ : UInt64) (rest : List Bool) :
+    readFull p (encodeDelta p δ ++ rest) = some (δ, rest) :=
+  Proofs.Gcs.golomb_roundtrip p hp δ rest
+
+example : readFull 3 (encodeDelta 3 29 ++ [true]) = some (29, [true]) := by decide
+
+/-- decoding the whole stream of an encoded list (no padding) returns the list. (The deltas are
+`UInt64` differences, so this does not even need sortedness.) -/
+theorem golomb_roundtrip_list (p : Nat) (hp : p ≤ 32) (vs : List UInt64) (last : UInt64) :
+    decodeAll p ((encodeSorted p last vs).length + 1) (encodeSorted p last vs) last = vs :=
+  Proofs.Gcs.decodeAll_exact p hp vs last _ (Nat.lt_succ_self _)
+
+/-- reading a value from `k` padding zeros gives EOF or a zero delta (leaving fewer zeros) -/
+theorem padding_reads_zero (p k : Nat) :
+    readFull p (List.replicate k false) = none ∨
+      ∃ j, j < k ∧ readFull p (List.replicate k false) = some (0, List.replicate j false) :=
+  Proofs.Gcs.readFull_padding p k
+
+/-- decoding until EOF a padded stream returns the values followed only by repeats of the last -/
+theorem decodeAll_padded (p : Nat) (hp : p ≤ 32) (vs : List UInt64) (last : UInt64) (k : Nat) :
+    let bits := encodeSorted p last vs ++ List.replicate k false
+    ∃ j, decodeAll p (bits.length + 1) bits last
+      = vs ++ List.replicate j (vs.getLast?.getD last) :=
+  Proofs.Gcs.decodeAll_spec p hp vs last k _ (Nat.lt_succ_self _)
+
+/-! ## sorting -/
+
+theorem sortU64_sorted_perm (l : List UInt64) :
+    (sortU64 l).Pairwise (· ≤ ·) ∧ (sortU64 l).Perm l :=
+  ⟨Proofs.Gcs.sortU64_sorted l, Proofs.Gcs.sortU64_perm l⟩
+
+/-! ## what a built filter is and what `Match` computes on it -/
+
+/-- `BuildGCSFilter` succeeds exactly for `N < 2^32`, `P ≤ 32` (so the hypotheses of the headline
+theorems are exactly "no error"), with the stated errors otherwise. -/
+theorem build_ok_or_error (sip : Bytes → UInt64) (P : Nat) (M : UInt64) (data : List Bytes) :
+    ((∃ f, BuildGCSFilter sip P M data = .ok f) ↔ data.length < 2^32 ∧ P ≤ 32) ∧
+    (BuildGCSFilter sip P M data = .error .nTooBig ↔ data.length ≥ 2^32) ∧
+    (BuildGCSFilter sip P M data = .error .pTooBig ↔ data.length < 2^32 ∧ P > 32) := by
+  refine ⟨⟨?_, ?_⟩, Proofs.Gcs.build_error_iff sip P M data⟩
+  · rintro ⟨f, hf⟩
+    have := (Proofs.Gcs.build_ok_iff ..).mp hf
+    exact ⟨this.1, this.2.1⟩
+  · rintro ⟨h1, h2⟩
+    exact ⟨_, (Proofs.Gcs.build_ok_iff ..).mpr ⟨h1, h2, rfl⟩⟩
+
+/-- On a built filter, `Match` answers exactly "does the query hash to the hash of a member". -/
+theorem Match_built_iff (sip : Bytes → UInt64) (P : Nat) (M : UInt64) (data : List Bytes)
+    (f : Filter) (hb : BuildGCSFilter sip P M data = .ok f) (x : Bytes) :
+    Match sip f x = true ↔
+      ∃ d ∈ data, hashToRange sip f.modulusNP d = hashToRange sip f.modulusNP x := by
+  rw [Proofs.Gcs.Match_built hb, decide_eq_true_eq]
+  obtain ⟨_, _, rfl⟩ := (Proofs.Gcs.build_ok_iff ..).mp hb
+  exact Proofs.Gcs.mem_valuesOf ..
+
+/-! ## headline: no false negatives -/
+
+/-- **C13_member_matches**: for every hash function, every `P`, `M` and data list, if the build
+succeeds (i.e. `N < 2^32`, `P ≤ 32`, see `build_ok_or_error`) every member is reported present by
+the single-item query, and every query list containing a member by all three any-of queries. -/
+theorem C13_member_matches (sip : Bytes → UInt64) (P : Nat) (M : UInt64) (data : List Bytes)
+    (f : Filter) (hb : BuildGCSFilter sip P M data = .ok f) (d : Bytes) (hd : d ∈ data) :
+    Match sip f d = true ∧
+    ∀ q : List Bytes, d ∈ q →
+      ZipMatchAny sip f q = true ∧ HashMatchAny sip f q = true ∧ MatchAny sip f q = true := by
+  have hm := Proofs.Gcs.member_hash_mem hb hd
+  refine ⟨by rw [Proofs.Gcs.Match_built hb]; exact decide_eq_true hm, fun q hq => ?_⟩
+  have : q.any (fun x => decide (hashToRange sip f.modulusNP x ∈ Proofs.Gcs.valuesOf sip M data))
+      = true := List.any_eq_true.mpr ⟨d, hq, decide_eq_true hm⟩
+  exact ⟨by rw [Proofs.Gcs.ZipMatchAny_built hb, this],
+         by rw [Proofs.Gcs.HashMatchAny_built hb, this],
+         by rw [Proofs.Gcs.MatchAny_built hb, this]⟩
+
+/-- **C13_empty**: a filter with `N = 0` matches no single item, and no filter matches the empty
+query. (For an arbitrary — not built — `Filter` value with `n = 0` but non-empty bytes
+`HashMatchAny` ignores `n`; for built filters see `C13_empty_built`.) -/
+theorem C13_empty (sip : Bytes → UInt64) (f : Filter) :
+    (f.n = 0 → ∀ d, Match sip f d = false) ∧
+    (f.n = 0 → ∀ q, ZipMatchAny sip f q = false) ∧
+    ZipMatchAny sip f [] = false ∧ HashMatchAny sip f [] = false ∧ MatchAny sip f [] = false := by
+  refine ⟨fun h d => ?_, fun h q => ?_, rfl, rfl, ?_⟩
+  · unfold Match; rw [h]; rfl
+  · unfold ZipMatchAny; rw [h]; split <;> rfl
+  · unfold MatchAny; split <;> rfl
+
+/-- a filter built from the empty set matches nothing, through every query function -/
+theorem C13_empty_built (sip : Bytes → UInt64) (P : Nat) (M : UInt64) (f : Filter)
+    (hb : BuildGCSFilter sip P M [] = .ok f) (q : List Bytes) :
+    f.n = 0 ∧ f.data = [] ∧ (∀ d, Match sip f d = false) ∧
+    ZipMatchAny sip f q = false ∧ HashMatchAny sip f q = false ∧ MatchAny sip f q = false := by
+  have hv : Proofs.Gcs.valuesOf sip M [] = [] := by
+    simp [Proofs.Gcs.valuesOf, Proofs.Gcs.sortU64_nil]
+  have hq : q.any (fun x => decide (hashToRange sip f.modulusNP x ∈ Proofs.Gcs.valuesOf sip M []))
+      = false := by rw [hv]; simp
+  refine ⟨?_, ?_, fun d => ?_, ?_, ?_, ?_⟩
+  · obtain ⟨_, _, rfl⟩ := (Proofs.Gcs.build_ok_iff ..).mp hb; rfl
+  · obtain ⟨_, _, rfl⟩ := (Proofs.Gcs.build_ok_iff ..).mp hb
+    simp [hv, encodeSorted, packBits]
+  · rw [Proofs.Gcs.Match_built hb, hv]; simp
+  · rw [Proofs.Gcs.ZipMatchAny_built hb, hq]
+  · rw [Proofs.Gcs.HashMatchAny_built hb, hq]
+  · rw [Proofs.Gcs.MatchAny_built hb, hq]
+
+/-! ## headline: the strategies agree -/
+
+/-- **C13_strategies_agree**: on every built filter and for every query list, the merge strategy,
+the decode-all strategy and the dispatching `MatchAny` all return exactly
+"some queried item matches individually". -/
+theorem C13_strategies_agree (sip : Bytes → UInt64) (P : Nat) (M : UInt64) (data : List Bytes)
+    (f : Filter) (hb : BuildGCSFilter sip P M data = .ok f) (q : List Bytes) :
+    ZipMatchAny sip f q = q.any (Match sip f ·) ∧
+    HashMatchAny sip f q = q.any (Match sip f ·) ∧
+    MatchAny sip f q = q.any (Match sip f ·) := by
+  have e : q.any (Match sip f ·)
+      = q.any (fun x => decide (hashToRange sip f.modulusNP x ∈ Proofs.Gcs.valuesOf sip M data)) :=
+    List.any_congr rfl (fun x => Proofs.Gcs.Match_built hb x)
+  rw [e]
+  exact ⟨Proofs.Gcs.ZipMatchAny_built hb q, Proofs.Gcs.HashMatchAny_built hb q,
+    Proofs.Gcs.MatchAny_built hb q⟩
+
+/-! ## non-vacuity: a toy hash on three items -/
+
+def toySip (d : Bytes) : UInt64 := UInt64.ofNat (Bytes.toNatBE d) * 0x9E3779B97F4A7C15
+
+def toyData : List Bytes := [[1, 2, 3], [0xff], [7, 7]]
+
+-- the hypothesis `BuildGCSFilter … = .ok f` of the headline theorems is satisfiable
+example : ∃ f, BuildGCSFilter toySip 19 784931 toyData = .ok f :=
+  (build_ok_or_error toySip 19 784931 toyData).1.mpr ⟨by decide, by decide⟩
+
+-- … and so the conclusions hold of a concrete filter (obtained from the theorems, not evaluation)
+example : ∃ f, BuildGCSFilter toySip 19 784931 toyData = .ok f ∧ f.n = 3 ∧
+    Match toySip f [0xff] = true ∧ MatchAny toySip f [[9], [7, 7]] = true := by
+  obtain ⟨f, hf⟩ := (build_ok_or_error toySip 19 784931 toyData).1.mpr ⟨by decide, by decide⟩
+  have h1 := C13_member_matches toySip 19 784931 toyData f hf [0xff] (by decide)
+  have h2 := C13_member_matches toySip 19 784931 toyData f hf [7, 7] (by decide)
+  have hn := (Proofs.Gcs.built_fields hf).1
+  exact ⟨f, hf, hn, h1.1, (h2.2 [[9], [7, 7]] (by decide)).2.2⟩
+
+/-- a fully evaluated instance: 3 items, P = 3, M = 5 (hashes 11, 8, 12 in `[0,15)`) -/
+theorem toy_build : BuildGCSFilter toySip 3 5 toyData = .ok ⟨3, 3, 15, [129, 136]⟩ := by
+  rw [Proofs.Gcs.build_ok_iff]
+  refine ⟨by decide, by decide, ?_⟩
+  have hv : Proofs.Gcs.valuesOf toySip 5 toyData = [8, 11, 12] :=
+    Proofs.Gcs.sorted_eq_of_perm (Proofs.Gcs.sortU64_sorted _) (by decide)
+      ((Proofs.Gcs.sortU64_perm _).trans (by decide))
+  have he : encodeSorted 3 0 [8, 11, 12]
+      = [true, false, false, false, false, false, false, true, true, false, false, false, true] := by
+    decide
+  rw [hv, he]
+  simp [packBits, byteOfBits, toyData]
+
+-- members match, a non-member ([5] hashes to 13) does not; the strategies agree on a mixed query
+example : Match toySip ⟨3, 3, 15, [129, 136]⟩ [0xff] = true := by decide
+example : Match toySip ⟨3, 3, 15, [129, 136]⟩ [5] = false := by decide
+example : ZipMatchAny toySip ⟨3, 3, 15, [129, 136]⟩ [[5], [7, 7]] = true
+    ∧ HashMatchAny toySip ⟨3, 3, 15, [129, 136]⟩ [[5], [7, 7]] = true
+    ∧ MatchAny toySip ⟨3, 3, 15, [129, 136]⟩ [[5]] = false :=
+  ⟨((C13_member_matches _ _ _ _ _ toy_build [7, 7] (by decide)).2 _ (by decide)).1,
+   ((C13_member_matches _ _ _ _ _ toy_build [7, 7] (by decide)).2 _ (by decide)).2.1,
+   by rw [(C13_strategies_agree _ _ _ _ _ toy_build [[5]]).2.2]; decide⟩
+
 end Bch.Props.C13
